@@ -41,7 +41,7 @@ pub assume_specification<'a> [<str>::char_indices] (s: &'a str) -> (it: core::st
     ensures ci_rest(it) == s@, ci_pos(it) == 0;
 pub assume_specification<'a> [<core::str::CharIndices<'a> as Iterator>::next] (it: &mut core::str::CharIndices<'a>) -> (r: Option<(usize, char)>)
     ensures match r {
-        None => ci_rest(*old(it)).len() == 0,
+        Option::None => ci_rest(*old(it)).len() == 0,
         Some(p) => ci_rest(*old(it)).len() > 0 && p.1 == ci_rest(*old(it))[0]
                    && ci_rest(*final(it)) == ci_rest(*old(it)).drop_first()
                    && ci_pos(*final(it)) == ci_pos(*old(it)) + 1
